@@ -33,24 +33,25 @@ Inductive action :=
 | AEvStreamError
 | ADisconnectCall           (* c.Disconnect() -> transport.Close() *)
 | ARecvStreamClose          (* transport.ReceivedStreamClose() *)
-| AQuit.                    (* loop returned; the client closes keepaliveQuit *)
+| AQuit.                    (* the client closes keepaliveQuit: before it reports the loss (the Disconnected handler of a
+                               StreamManager only returns once a new session is up); the component: loop returned *)
 
 (* Client.recv.  inb: SMState.Inbound; nw: number of transport writes made so far
    by this loop; wfail: the (1-based) write that fails, if any. *)
 Fixpoint crecv (inb : N) (nw : nat) (wfail : option nat) (items : list item) : list action :=
   match items with
-  | [] => [AErrCall; AEvDisconnected inb; AQuit]
+  | [] => [AQuit; AErrCall; AEvDisconnected inb]
   | i :: rest =>
       match i with
-      | IBad => [AErrCall; AEvDisconnected inb; AQuit]
+      | IBad => [AQuit; AErrCall; AEvDisconnected inb]
       | IStreamError _ =>
           ARouteSync i :: AEvStreamError :: AErrCall :: ADisconnectCall :: ARouteAsync i
             :: crecv inb nw wfail rest
       | ISmR =>
           if match wfail with Some k => Nat.eqb k (S nw) | None => false end
-          then [AWriteFail inb; AErrCall; AEvDisconnected inb; AQuit]
+          then [AWriteFail inb; AQuit; AErrCall; AEvDisconnected inb]
           else AWrite inb :: ARouteAsync i :: crecv inb (S nw) wfail rest
-      | IClose => [ARecvStreamClose; AEvDisconnected inb; AQuit]
+      | IClose => [ARecvStreamClose; AQuit; AEvDisconnected inb]
       | IStanza _ _ => ARouteAsync i :: crecv (inb + 1) nw wfail rest
       | ISmA _ | INonza _ => ARouteAsync i :: crecv inb nw wfail rest
       end
@@ -101,6 +102,22 @@ Definition count_act (p : action -> bool) (tr : list action) : nat := length (fi
 Definition is_err a := match a with AErrCall => true | _ => false end.
 Definition is_disc a := match a with AEvDisconnected _ => true | _ => false end.
 Definition is_quit a := match a with AQuit => true | _ => false end.
+
+(* the keepalive is told to stop before the loss is reported *)
+Fixpoint quit_before_disc (tr : list action) : bool :=
+  match tr with
+  | [] => false
+  | AQuit :: _ => true
+  | AEvDisconnected _ :: _ => false
+  | _ :: r => quit_before_disc r
+  end.
+(* nothing is routed, answered or written once the quit channel is closed *)
+Fixpoint quiet_after_quit (tr : list action) : bool :=
+  match tr with
+  | [] => true
+  | AQuit :: r => forallb (fun a => match a with AErrCall | AEvDisconnected _ => true | _ => false end) r
+  | _ :: r => quiet_after_quit r
+  end.
 
 (* expected answers: for each <r/> among the processed items, the number of stanzas
    before it (plus the count the session started with) *)
